@@ -4,7 +4,7 @@ from . import static
 PROPS = {
     "C01": {
         "level": "proof",
-        "static": [static.c01_frame],
+        "static": [static.c01_frame, static.lean_lemmas],
         "trusted": ["Unit.__from_json__: factors read from a JSON document are assumed to be in normal form (as produced by __json__)"],
         "explanation": "C01 is the table invariant I_U.C01-dimension-is-fold; every Unit(...) call site carries it as a precondition "
                        "(obligation call-pre:Unit#k:C01-dimension-is-fold), every function that allocates units re-establishes I_U, and a static "
@@ -12,6 +12,7 @@ PROPS = {
     },
     "C02": {
         "level": "proof",
+        "static": [static.lean_lemmas],
         "trusted": ["mixed-base prefix arithmetic: exponent identities proved over the reals with uninterpreted log (A4); the 1e-9 float tolerance is bounded only",
                     "group laws not completed by the solver and therefore bounded only: prefix associativity, unit associativity, unit neutral element, "
                     "unit exponent sum, unit root-of-power (see contracts/c_lemmas.py BOUNDED_ONLY)"],
